@@ -60,15 +60,18 @@ Record cb_facts (fid : N) (p p' : proxy) (x x' : mux) : Prop := {
   cbf_mmono : muxw_mono (p_m p) (p_m p');
   (* sock -> mux direction: conservation, or the drop rule (peer cannot be written) *)
   cbf_s2m : flat (s_buf (p_s p)) ++ cb_r = data_cat cb_new ++ flat (s_buf (p_s p'))
-            \/ (m_sw (p_m p) = true /\ s_buf (p_s p') = [] /\ s_sr (p_s p') = true);
+            \/ (m_sw (p_m p) = true /\ s_buf (p_s p') = [] /\ s_sr (p_s p') = true /\
+                exists dropped, flat (s_buf (p_s p)) ++ cb_r = data_cat cb_new ++ dropped);
   (* mux -> sock direction *)
   cbf_m2s : flat (m_buf (p_m p)) = cb_d ++ flat (m_buf (p_m p'))
-            \/ (s_sw (p_s p') = true /\ m_buf (p_m p') = []);
+            \/ (s_sw (p_s p') = true /\ m_buf (p_m p') = [] /\
+                exists dropped, flat (m_buf (p_m p)) = cb_d ++ dropped);
   (* EOF is emitted only after everything read has been framed, and nothing follows it *)
   cbf_eof : m_sw (p_m p) = false -> m_sw (p_m p') = true ->
             s_buf (p_s p') = [] /\ s_sr (p_s p') = true /\
             exists pre post, cb_new = pre ++ eof_frame (m_chan (p_m p)) fid :: post /\
-                             data_cat post = [] /\ flat (s_buf (p_s p)) ++ cb_r = data_cat pre;
+                             data_cat post = [] /\ flat (s_buf (p_s p)) ++ cb_r = data_cat pre /\
+                             (forall f, In f pre -> sf_cmd f <> CEof) /\ (forall f, In f post -> sf_cmd f <> CEof);
   cbf_noeof : m_sw (p_m p') = m_sw (p_m p) -> forall f, In f cb_new -> sf_cmd f <> CEof;
   (* STOP_SENDING is emitted only when the local socket can no longer be written *)
   cbf_stop : m_sr (p_m p) = false -> m_sr (p_m p') = true -> s_sw (p_s p') = true;
@@ -182,8 +185,8 @@ Proof.
      | _ => (drop_empty (s_buf s), x)
      end) as [buf' x1] eqn:E.
   specialize (P1 _ _ eq_refl).
-  destruct buf' as [|b1 bs1]; [|left; rewrite P1; reflexivity].
-  destruct (s_sr s); [|left; rewrite P1; reflexivity].
+  destruct buf' as [|b1 bs1]; [|left; split; [reflexivity|rewrite P1; reflexivity]].
+  destruct (s_sr s); [|left; split; [reflexivity|rewrite P1; reflexivity]].
   pose proof (nowrite_cc m x1 fid) as H. destruct (m_nowrite m x1 fid) as [m' x2]. cbn [fst snd] in H.
   unfold chan_change_ok in *. rewrite P1 in H. exact H.
 Qed.
@@ -358,9 +361,11 @@ Proof.
                 destruct (Ceof eq_refl A) as (X & _). contradiction.
               * congruence.
               * exact (SrMono _ _ Pm D).
+              * exists (flat (s_buf s2)). rewrite <- T1, <- F1. exact Cs.
   (* 10 *) - destruct M3case as [(_ & _ & Hb)|(A & B & _ & _)].
             + left. rewrite Pmbuf, Hb. exact Cm.
-            + right. split; [|congruence]. apply (SwMono _ _ M2F). exact A.
+            + right. splits; [apply (SwMono _ _ M2F); exact A|congruence|].
+              exists (flat (m_buf m2)). exact Cm.
   (* 11 *) - intros A B. destruct (m_sw m2) eqn:E2.
             + destruct (Ceof A eq_refl) as (X1 & X2 & pre & X3 & X4).
               assert (Hs3 : s_buf s3 = []) by (destruct S3buf as [Hb|(_ & Hb & _)]; [congruence|contradiction]).
@@ -370,6 +375,8 @@ Proof.
               * rewrite X3, <- app_assoc. reflexivity.
               * rewrite data_cat_app, Dsn1, Den1. reflexivity.
               * rewrite <- T1, <- F1, Cs, X1, X3, data_cat_app, data_cat_eof, !app_nil_r. reflexivity.
+              * intros fr Hin Hc. rewrite Forall_forall in X4. rewrite (X4 fr Hin) in Hc. discriminate.
+              * intros fr Hin Hc. rewrite Hen, app_nil_r in Hin. rewrite (Dsn3 fr Hin) in Hc. discriminate.
             + assert (Hm3 : m_sw m3 = false) by congruence.
               destruct Pend as [(_ & _ & Q & _)|(Q1 & Q2 & Q3 & Q4 & Q5 & Q6 & Q7)]; [congruence|].
               assert (Hs2 : s_buf s2 = []) by (destruct S3buf as [Hb|(Hb & _)]; congruence).
@@ -378,6 +385,11 @@ Proof.
               * rewrite (Pen1 Hm3 B), <- app_assoc. reflexivity.
               * reflexivity.
               * rewrite data_cat_app, Dsn1, app_nil_r, <- T1, <- F1, Cs, Hs2, app_nil_r. reflexivity.
+              * intros fr Hin Hc. apply in_app_or in Hin. destruct Hin as [Hin|Hin].
+                -- assert (Hm20 : false = m_sw m0) by congruence.
+                   pose proof (Cne Hm20) as Hd. rewrite Forall_forall in Hd. rewrite (Hd fr Hin) in Hc. discriminate.
+                -- rewrite (Dsn3 fr Hin) in Hc. discriminate.
+              * intros fr [].
   (* 12 *) - intros A f Hin.
             assert (E02 : m_sw m2 = m_sw m0 /\ m_sw mF = m_sw m3).
             { destruct Cmm as (_ & _ & C1). destruct Pmm as (_ & _ & C2). destruct M3m as (_ & _ & C3).
@@ -429,3 +441,40 @@ Proof.
   (* 19 *) - intros H. destruct Pend as [(_ & _ & _ & Q)|(Q1 & Q2 & Q3 & Q4 & Q5 & Q6 & Q7)]; [left; congruence|].
             right. splits; auto; try congruence. exact (SrMono _ _ Pm Q1).
 Qed.
+
+(* ---------------- Proxy.pre_select ---------------- *)
+Lemma pre_select_spec sd fid p x :
+  let '(p', x', ws) := proxy_pre_select sd fid p x in
+  exists sn, mux_ext (m_chan (p_m p)) fid x x' sn /\
+  chan_change_ok (p_m p) (p_m p') x x' /\ muxw_mono (p_m p) (p_m p') /\
+  sn = (if s_sw (p_s p) then (if m_sr (p_m p) then [] else [stop_frame (m_chan (p_m p)) fid]) else []) /\
+  m_sr (p_m p') = (m_sr (p_m p) || s_sw (p_s p)) /\ m_sw (p_m p') = m_sw (p_m p) /\ m_buf (p_m p') = m_buf (p_m p) /\
+  same_data (p_s p) (p_s p') /\ s_sr (p_s p') = (s_sr (p_s p) || m_sw (p_m p)) /\
+  s_sw (p_s p') = s_sw (p_s p) /\ s_fault (p_s p') = s_fault (p_s p) /\ s_conn (p_s p') = s_conn (p_s p) /\
+  p_ok p' = p_ok p /\ p_removed p' = p_removed p.
+Proof.
+  unfold proxy_pre_select.
+  set (s := p_s p). set (m := p_m p).
+  destruct (if s_sw s then m_noread m x fid else (m, x)) as [m1 x1] eqn:E1.
+  assert (H1 : exists sn, mux_ext (m_chan m) fid x x1 sn /\ chan_change_ok m m1 x x1 /\ muxw_mono m m1 /\
+            sn = (if s_sw s then (if m_sr m then [] else [stop_frame (m_chan m) fid]) else []) /\
+            m_sr m1 = (m_sr m || s_sw s) /\ m_sw m1 = m_sw m /\ m_buf m1 = m_buf m).
+  { destruct (s_sw s) eqn:Es.
+    - destruct (noread_ext m x fid) as (sn & N1 & N2 & N3 & N4 & N5 & N6).
+      pose proof (noread_cc m x fid) as N7. rewrite E1 in *. cbn [fst snd] in *.
+      exists sn. splits; auto. rewrite N4. destruct (m_sr m); reflexivity.
+    - inversion E1; subst. exists []. splits; auto using mux_ext_refl, cc_refl, muxw_mono_refl.
+      destruct (m_sr m); reflexivity. }
+  destruct H1 as (sn & A1 & A2 & A3 & A4 & A5 & A6 & A7).
+  cbv zeta. exists sn. cbn [p_s p_m p_ok p_removed].
+  splits; auto.
+  - unfold same_data. destruct (m_sw m); cbn; auto.
+  - destruct (m_sw m); cbn; [destruct (s_sr s); reflexivity|destruct (s_sr s); reflexivity].
+  - destruct (m_sw m); reflexivity.
+  - destruct (m_sw m); reflexivity.
+  - destruct (m_sw m); reflexivity.
+Qed.
+
+Ltac destr_cb F :=
+  destruct F as [cbnew cbr cbd Fext Fcc Frd Frdshut Fwr Fwrshut Fsmono Fmmono Fs2m Fm2s Feof Fnoeof
+                 Fstop Fstopf Fshut Fbound Ftf Fremoved Fdone].
